@@ -62,7 +62,11 @@ SeedDeleteRoot == \* a cluster whose children are not next to each other in the 
   { << [kind |-> "sub", rules |-> << R(0, <<1, 3, 2, 3>>, <<NoItem, Att(-1, 30), NoItem, Att(r4, 20)>>, NoCon, 0) >>],
        [kind |-> "sub", rules |-> << R(0, <<1>>, <<I("delete", 0)>>, [kind |-> "gattr", item |-> 0, val |-> 0, f |-> 0], 0) >>],
        [kind |-> "pos", rules |-> << R(0, <<3>>, <<[NoItem EXCEPT !.shift = 40]>>, NoCon, 0) >>] >> : r4 \in {-3, -1} }
-Seeds == SeedDeleteRoot \cup SeedMarks \cup SeedChains \cup SeedRecycle \cup SeedOrder \cup SeedSkip \cup SeedSigned
+SeedLessEq ==  \* a constraint that orders instead of comparing for equality, on a value set by an earlier pass: equal, below, above
+  { << [kind |-> "sub", rules |-> << R(0, <<1>>, <<[NoItem EXCEPT !.user = u]>>, NoCon, 0) >>],
+       [kind |-> "sub", rules |-> << R(0, <<1>>, <<I("subs", 2)>>, [kind |-> "userle", item |-> 0, val |-> 7, f |-> 0], 0),
+                                    R(0, <<1>>, <<I("glyph", 3)>>, NoCon, 0) >>] >> : u \in {6, 7, 8} }
+Seeds == SeedLessEq \cup SeedDeleteRoot \cup SeedMarks \cup SeedChains \cup SeedRecycle \cup SeedOrder \cup SeedSkip \cup SeedSigned
 SpecSeeded == InitSeeded(Seeds) /\ [][Next]_vars
 SpecSeededF == InitSeeded(SeedFeat) /\ [][Next]_vars
 =============================================================================
